@@ -2,7 +2,7 @@ import SuccinctlyVerif.Spec.YamlKernels
 import SuccinctlyVerif.Model.YamlSimd
 import Driver.Util
 namespace SV.Drv.C16
-open SV SV.Drv SV.Yaml
+open SV SV.Drv SV.YamlK
 
 def optS : Option Nat → String
   | some n => toString n
